@@ -26,6 +26,13 @@ KNOWN_FILE = os.environ.get("VERIF_KNOWN") or os.path.join(ROOT, "known_findings
 def load_contracts():
     for f in sorted(glob.glob(os.path.join(ROOT, "contracts", "C*.py")) + glob.glob(os.path.join(ROOT, "contracts", "proto*.py")) + glob.glob(os.path.join(ROOT, "contracts", "XC_*.py"))):
         importlib.import_module("contracts." + os.path.basename(f)[:-3])
+    try:
+        tuning = importlib.import_module("contracts.tuning")
+        for k, (n, depth) in tuning.SHARDS.items():
+            if k in REGISTRY:
+                REGISTRY[k].shards, REGISTRY[k].shard_depth = n, depth
+    except ModuleNotFoundError:
+        pass
 
 
 def load_known():
@@ -50,11 +57,12 @@ def known_env():
 
 
 def _run_task(arg):
-    key, pid, tier, known = arg
+    key, pid, tier, known, shard = arg
     try:
         load_contracts()
         c = REGISTRY[key]
         cfg = Config()
+        cfg.shard = shard
         if tier == "thorough":
             cfg.oblig_timeout_ms = 180000
         from .engine import Explorer
@@ -141,13 +149,63 @@ def run_deductive(pid, tier, known, jobs=None, only=None):
         keys = [k for k in keys if any(o in k for o in only)]
     if not keys:
         return []
-    jobs = jobs or min(16, len(keys), os.cpu_count() or 4)
-    args = [(k, pid, tier, known) for k in keys]
+    args = []
+    for k in keys:
+        n = int(getattr(REGISTRY[k], "shards", 1) or 1)
+        if n > 1 and not getattr(REGISTRY[k], "is_lemma", False) and not getattr(REGISTRY[k], "static_only", False):
+            args.extend((k, pid, tier, known, (i, n, int(getattr(REGISTRY[k], "shard_depth", 4)))) for i in range(n))
+        else:
+            args.append((k, pid, tier, known, None))
+    # heavy (sharded) tasks first, so that the pool is busy from the start
+    args.sort(key=lambda a: 0 if a[4] else 1)
+    jobs = jobs or min(16, len(args), os.cpu_count() or 4)
     if jobs == 1:
-        return [_run_task(a) for a in args]
-    ctx = mp.get_context("fork")
-    with ctx.Pool(jobs) as pool:
-        return pool.map(_run_task, args, chunksize=1)
+        raw = [_run_task(a) for a in args]
+    else:
+        ctx = mp.get_context("fork")
+        with ctx.Pool(jobs) as pool:
+            raw = pool.map(_run_task, args, chunksize=1)
+    return _merge_shards(raw, keys)
+
+
+def _merge_shards(raw, keys):
+    """One result per function: the shards of a function explored disjoint parts of its path space."""
+    by = {}
+    for r in raw:
+        by.setdefault(r["target"], []).append(r)
+    out = []
+    for k in keys:
+        rs = by.get(k, [])
+        if len(rs) == 1:
+            out.append(rs[0])
+            continue
+        m = dict(rs[0])
+        seen = {}
+        for r in rs:
+            for o in r["obligations"]:
+                key = (o["name"], tuple(o.get("path") or ()))
+                old = seen.get(key)
+                if old is None:
+                    seen[key] = o
+                elif o.get("kind") == "cover" and o["status"] == "covered":
+                    seen[key] = o  # a vacuity guard is met if any shard reaches the point
+                elif old["status"] in ("discharged", "covered") and o["status"] not in ("discharged", "covered") and o.get("kind") != "cover":
+                    seen[key] = o
+        m["obligations"] = list(seen.values())
+        m["paths"] = sum(r["paths"] for r in rs)
+        m["solver_time"] = sum(r["solver_time"] for r in rs)
+        m["wall"] = max(r["wall"] for r in rs)
+        m["queries"] = sum(r.get("queries", 0) for r in rs)
+        bad = [r for r in rs if r["status"] != "ok"]
+        if bad:
+            m["status"], m["message"] = bad[0]["status"], bad[0]["message"]
+        m["used_contracts"] = sorted(set(x for r in rs for x in r.get("used_contracts", [])))
+        m["inlined"] = sorted(set(x for r in rs for x in r.get("inlined", [])))
+        m["shards"] = len(rs)
+        m["shard_walls"] = [round(r["wall"], 1) for r in rs]
+        m["shard_paths"] = [r["paths"] for r in rs]
+        out.append(m)
+    return out
 
 
 # --------------------------------------------------------------------------------------------- replay
